@@ -409,6 +409,35 @@ func (env *Env) callSpec(x *ast.CallExpr, fn *types.Func, spec *FuncSpec, recvEx
 		env.writeLoc(w.loc, w.val, x.Pos(), false)
 	}
 	c.runGhosts(env.st, "after call "+ord, x.Pos())
+	// crash points: after every effect on ghost state that a crash invariant mentions, the invariant must hold
+	for i, ci := range c.spec.CrashInv {
+		touched := false
+		for _, m := range spec.Modifies {
+			if strings.HasPrefix(m, "ghost.") && strings.Contains(ci.Expr, m) {
+				touched = true
+			}
+		}
+		if !touched {
+			continue
+		}
+		var g string
+		c.guarded(env.st, func() { g = c.specEnvAt(env.st, x.Pos()).evalSpecBool(ci) })
+		if env.st.dead {
+			break
+		}
+		lbl := ci.Label
+		if lbl == "" {
+			lbl = fmt.Sprintf("ci%d", i+1)
+		}
+		props := ci.Props
+		if props == nil {
+			props = c.spec.Props
+		}
+		save := c.curPos
+		c.curPos = x.Pos()
+		c.oblige(env.st, "crash", lbl+"@"+ord, g, props, ci.Expr+"  (crash point after "+ord+")")
+		c.curPos = save
+	}
 	if retLoc != nil {
 		return Val{Loc: retLoc, GoT: sig.Results().At(0).Type()}
 	}
@@ -538,7 +567,7 @@ func (env *Env) lenOf(v Term, pos token.Pos) Val {
 		return Val{T: l}
 	case KMap:
 		card := app(v.Sort+".card", v.S)
-		env.st.Assume(app("<=", "0", card))
+		env.st.Assume(and(app("<=", "0", card), app("<=", card, MAXLEN)))
 		return Val{T: Term{card, SInt}}
 	case KArray:
 		return Val{T: tInt(si.N)}
@@ -889,6 +918,19 @@ func (env *Env) specCall(x *ast.CallExpr) Val {
 		v := env.term(arg(0), x.Pos())
 		env.c.declOnce("(declare-fun uptr.ofaddr ((_ BitVec 64)) UPtr)")
 		return Val{T: Term{app("uptr.ofaddr", v.S), "UPtr"}}
+	case "bstr":
+		// bstr(b): the string made of the bytes of slice b (what string(b) yields)
+		v := env.term(arg(0), x.Pos())
+		si := ss.Info(v.Sort)
+		if si == nil || si.Kind != KSlice {
+			env.fail(x.Pos(), "bstr of non-slice %s", v.Sort)
+		}
+		fn := "bytes2str." + mangle(v.Sort)
+		env.c.declOnce(fmt.Sprintf("(declare-fun %s ((Array Int %s) Int) String)", fn, si.Elem))
+		return Val{T: Term{app(fn, ss.slArr(v), ss.slLen(v).S), SString}}
+	case "min":
+		a, b := env.coerce(arg(0), SInt), env.coerce(arg(1), SInt)
+		return Val{T: Term{ite(app("<", a.T.S, b.T.S), a.T.S, b.T.S), SInt}}
 	case "numSubexp":
 		v := env.term(arg(0), x.Pos())
 		env.c.declOnce(fmt.Sprintf("(declare-fun numSubexp (%s) Int)", v.Sort))
